@@ -1619,6 +1619,15 @@ func (s *manifestStore) generateDescriptor(resp *http.Response, ref registry.Ref
 func calculateDigestFromResponse(resp *http.Response, maxMetadataBytes int64) (digest.Digest, error) {
 	defer resp.Body.Close()
 
+	if maxMetadataBytes <= 0 {
+		maxMetadataBytes = defaultMaxMetadataBytes
+	}
+	if resp.ContentLength > maxMetadataBytes {
+		// a truncated body must not be taken for the manifest
+		return "", fmt.Errorf(
+			"%s %q: response body of %d bytes exceeds MaxMetadataBytes %v: %w",
+			resp.Request.Method, resp.Request.URL, resp.ContentLength, maxMetadataBytes, errdef.ErrSizeExceedsLimit)
+	}
 	body := limitReader(resp.Body, maxMetadataBytes)
 	content, err := io.ReadAll(body)
 	if err != nil {
